@@ -34,7 +34,7 @@ ASSUMPTIONS = [
     "failpoints are placed only in callee frames below as_dict/as_obj: no real exception can arise between the plain assignments at the top of these two functions",
     "the slots are read through their name-mangled class attributes",
 ]
-MUST_SEE = ["raised_with_options", "failpoints_fired", "failpoint_nested", "default_after_fault", "bomb_positions", "corrupt_payloads", "option_subsets", "mappings_walked", "explorer_children_checked", "index_sources_checked", "deser_with_options", "repo_tests_slot_checks", "shared_options_object"]
+MUST_SEE = ["option_spelled_false", "raised_with_options", "failpoints_fired", "failpoint_nested", "default_after_fault", "bomb_positions", "corrupt_payloads", "option_subsets", "mappings_walked", "explorer_children_checked", "index_sources_checked", "deser_with_options", "repo_tests_slot_checks", "shared_options_object"]
 CONFIG = {
     "quick": {"shards": 16, "trees": 16, "subsets": 14, "failpoint_trees": 1, "watchdog_s": 600},
     "thorough": {"shards": 32, "trees": 40, "subsets": 48, "failpoint_trees": 4, "watchdog_s": 3400},
@@ -207,6 +207,13 @@ def run_shard(ctx):
             if idx:
                 o[SOURCE_OPTIMIZED_SERIALIZATION_KEY] = True
             out.append((o, md))
+            # the same subset with the switched-off options spelled out as False (an option is its value, not its presence)
+            o2 = dict(o)
+            for key, on in ((SerializationOption.SKIP_CLASS, skip), (SerializationOption.SORT_KEYS, sort), (SOURCE_OPTIMIZED_SERIALIZATION_KEY, idx)):
+                if not on:
+                    o2[key] = False
+            if o2 != o or len(o2) != len(o):
+                out.append((o2, md))
         return out
 
     subsets = all_subsets()
@@ -261,6 +268,8 @@ def run_shard(ctx):
         # ---------------- successful calls with every option subset + shape walk
         for opts, md in chosen:
             ctx.count("option_subsets")
+            if any(v is False for v in opts.values()):
+                ctx.count("option_spelled_false")
             how = rng.choice(["as_dict", "as_dict", "to_json", "to_msgpck", "to_yaml"])
             call = {"call": how, "options": odesc(opts, md), "tree": spec_json(s)}
             ctx.evaluations += 1
